@@ -118,6 +118,40 @@ func (rw *RWMutex) SimDescribe() string {
 	return fmt.Sprintf("RWMutex@%p writer=%v readers=%v writersWaiting=%d", rw, rw.owner, rw.readers, rw.wWaiting)
 }
 
+// The reader list is bookkeeping for the deadlock report. Readers touch it without any
+// happens-before edge between them (as with the real RWMutex's reader count, which is atomic),
+// so it must stay invisible to the race detector: element-by-element stores in norace
+// functions only -- append and copy would go through runtime helpers (growslice, slicecopy)
+// that report to the detector whatever the caller's norace says.
+
+//go:norace
+func (rw *RWMutex) addReader(t *simrt.Task) {
+	n := len(rw.readers)
+	if n == cap(rw.readers) {
+		bigger := make([]*simrt.Task, n, 2*n+4)
+		for i := 0; i < n; i++ {
+			bigger[i] = rw.readers[i]
+		}
+		rw.readers = bigger
+	}
+	rw.readers = rw.readers[:n+1]
+	rw.readers[n] = t
+}
+
+//go:norace
+func (rw *RWMutex) dropReader(t *simrt.Task) {
+	for i := range rw.readers {
+		if rw.readers[i] == t {
+			for j := i; j+1 < len(rw.readers); j++ {
+				rw.readers[j] = rw.readers[j+1]
+			}
+			rw.readers[len(rw.readers)-1] = nil
+			rw.readers = rw.readers[:len(rw.readers)-1]
+			return
+		}
+	}
+}
+
 //go:norace
 func (rw *RWMutex) RLock() {
 	if simrt.Active() == nil {
@@ -133,7 +167,7 @@ func (rw *RWMutex) RLock() {
 		simrt.BlockOn(rw, simrt.SiteRLock)
 	}
 	rw.r++
-	rw.readers = append(rw.readers, simrt.Current())
+	rw.addReader(simrt.Current())
 	raceAcquireAddr(&rw.readerSem)
 }
 
@@ -147,7 +181,7 @@ func (rw *RWMutex) TryRLock() bool {
 		return false
 	}
 	rw.r++
-	rw.readers = append(rw.readers, simrt.Current())
+	rw.addReader(simrt.Current())
 	raceAcquireAddr(&rw.readerSem)
 	return true
 }
@@ -168,12 +202,7 @@ func (rw *RWMutex) RUnlock() {
 	raceReleaseMergeAddr(&rw.writerSem)
 	rw.r--
 	me := simrt.Current()
-	for i, t := range rw.readers {
-		if t == me {
-			rw.readers = append(rw.readers[:i], rw.readers[i+1:]...)
-			break
-		}
-	}
+	rw.dropReader(me)
 	simrt.WakeAll(rw)
 	simrt.Yield(simrt.SiteRUnlock)
 }
